@@ -44,7 +44,7 @@ def run(res, tier):
     mprop.finish_engine(res, E)
 
 
-def check_update_plumbing(res, E):
+def check_update_plumbing(res, E, check_install=False):
     """SharedHistory::update: delta computed whenever a current snapshot exists, pushed iff constructed, and the
     returned flag is true whenever a delta was pushed (C17 relies on the flag for its notification)."""
     body = E.prog.find("src/payload/history.rs", "SharedHistory", "update")
@@ -99,6 +99,14 @@ def check_update_plumbing(res, E):
         if ret is not None and mir.is_z(ret) and push and E.feasible(p.cond, z3.Not(ret)):
             fn = mprop.write_cex(res, "changed_but_false_%d" % i, p, E, "update returns false although a delta was pushed")
             res.violation("mir:update-flag-wrong", "update() reports no change although it pushed a delta", fn)
+        # the new snapshot is installed on every path: even when nothing changed its refresh time and object
+        # information are the new run's (C34 schedules the next run from it, C39 bounds it)
+        i_cur = mir.struct_fields("PayloadHistory", "src/payload/history.rs").index("current")
+        if check_install and not any(len(loc) >= 3 and loc[-1] == ("f", i_cur) or (len(loc) >= 4 and loc[2] == ("f", i_cur)) for loc, _ in p.writes):
+            if not any(v["key"] == "mir:update-keeps-old-snapshot" for v in res.violations):
+                fn = mprop.write_cex(res, "snapshot_not_installed_%d" % i, p, E, "SharedHistory::update returns without installing the new snapshot")
+                res.violation("mir:update-keeps-old-snapshot", "SharedHistory::update can return without installing the run's snapshot: the expiry (refresh) of the "
+                              "served data stays that of an earlier run, so the next run is scheduled from stale times", fn)
         if len(res.samples) < 12:
             res.samples.append({"update_path": [e.name.split("::")[-1] for e in p.events if e.kind == "call"
                                                 and re.search(r"and_then$|push_delta$|into_snapshot$|current$|serial$", e.name)],
